@@ -391,6 +391,20 @@ FIXED = [
               "required": ["h"], "additionalProperties": True},
         "j": {"anyOf": [{"type": "array", "items": {"type": "integer"}, "additionalItems": True}, {"type": "string"}]}},
      "required": ["a", "c"], "additionalProperties": True},
+    # uniqueItems over elements that are themselves containers (arrays, map-like objects, untyped), wrapped 0-2 deep
+    {"type": "object", "properties": {
+        "a": {"type": "array", "uniqueItems": True},
+        "b": {"type": "array", "uniqueItems": True, "items": {"type": "array"}},
+        "c": {"type": "array", "uniqueItems": True, "items": {"type": "array", "items": {"type": "number"}}, "maxItems": 4},
+        "d": {"type": "array", "uniqueItems": True, "items": {"type": "object"}},
+        "e": {"type": "array", "uniqueItems": True, "items": {"type": "object", "additionalProperties": {"type": "number"}}},
+        "f": {"type": "array", "items": {"type": "array", "uniqueItems": True}},
+        "g": {"type": "object", "additionalProperties": {"type": "array", "uniqueItems": True, "items": {"type": "array"}}},
+        "h": {"type": "object", "properties": {"u": {"type": "array", "uniqueItems": True}, "n": {"type": "integer"}},
+              "required": ["n"], "additionalProperties": True},
+        "i": {"type": "array", "uniqueItems": True, "items": [{"type": "integer"}, {"type": "string"}]},
+        "j": {"type": "array", "uniqueItems": True, "items": {"type": "number"}}},
+     "required": ["a"], "additionalProperties": True},
 ]
 
 
